@@ -17,10 +17,10 @@ structure GInv (w : World) (issued live : List Entity) : Prop where
   root : RootInv w
   link : ∃ free, LInv w issued live free
 
-/-- `LInv` only reads pool, index size, flags size, `loc` and the stored rows -/
-theorem linv_transfer {w w' : World} {issued live : List Entity} {free : List Nat} (hK : KInv w)
-    (hp : w'.pool = w.pool) (hi : w'.index = w.index) (hf : w'.flags = w.flags)
-    (hrow : ∀ t r, validRow w t r → rowAt w' t r = rowAt w t r) (h : LInv w issued live free) : LInv w' issued live free := by
+/-- `LInv` only reads the pool, the index, the flags size and the entities of the stored rows -/
+theorem linv_transfer' {w w' : World} {issued live : List Entity} {free : List Nat} (hK : KInv w)
+    (hp : w'.pool = w.pool) (hi : w'.index = w.index) (hf : w'.flags.size = w.flags.size)
+    (hrow : ∀ t r, validRow w t r → (rowAt w' t r).ent = (rowAt w t r).ent) (h : LInv w issued live free) : LInv w' issued live free := by
   have hloc : ∀ id, loc w' id = loc w id := by intro id; unfold loc; rw [hi]
   refine ⟨by rw [hp]; exact h.pool, by rw [hi, hp]; exact h.isize, by rw [hf, hi]; exact h.fsize, ?_⟩
   intro e
@@ -31,6 +31,11 @@ theorem linv_transfer {w w' : World} {issued live : List Entity} {free : List Na
   · rintro ⟨l, h1, h2⟩
     rw [hloc] at h1
     exact ⟨l, h1, by rw [← hrow _ _ (hK.idx.fwd _ _ h1).1]; exact h2⟩
+
+theorem linv_transfer {w w' : World} {issued live : List Entity} {free : List Nat} (hK : KInv w)
+    (hp : w'.pool = w.pool) (hi : w'.index = w.index) (hf : w'.flags = w.flags)
+    (hrow : ∀ t r, validRow w t r → rowAt w' t r = rowAt w t r) (h : LInv w issued live free) : LInv w' issued live free :=
+  linv_transfer' hK hp hi (by rw [hf]) (fun t r hv => by rw [hrow t r hv]) h
 
 /-- **the graph walk and the table lookup / creation keep everything**, whether the call
     succeeds or panics half-way -/
